@@ -21,6 +21,7 @@ Init == /\ tid \in 1..Len(Traces) /\ l = 1 /\ bad = {}
 Cls(c) == c \div 100
 \* failure events the downstream produced: "4", "5" (reply classes) and "x" (disconnect, garbage, silence, refusal)
 FailOf(e) == IF e.stage = "starttls_opt" /\ e.act = "code" THEN {}      \* STARTTLS refused, TLS not required: delivery goes on in clear
+             ELSE IF e.act = "noauth" THEN {"5"}      \* the relay has to authenticate and the EHLO reply in force does not offer AUTH
              ELSE IF e.act = "code" THEN (IF Cls(e.code) = 4 THEN {"4"} ELSE IF Cls(e.code) = 5 THEN {"5"} ELSE {}) ELSE {"x"}
 EvCall == /\ E.t = "call" /\ R' = [R EXCEPT !.nrcpt = E.nrcpt] /\ bad' = bad
 EvPeer ==
@@ -29,7 +30,8 @@ EvPeer ==
          relevant == E.stage \notin {"quit", "rset"} \/ ~R.returned
      IN R' = [R EXCEPT !.fails = IF E.stage = "quit" THEN @ ELSE @ \cup f,
                        \* a 5xx answer that concerns the whole message (not one recipient among several)
-                       !.msg5 = @ \/ (E.act = "code" /\ Cls(E.code) = 5 /\ E.stage \in {"banner", "ehlo", "helo", "starttls", "auth", "mail", "data", "exit", "http", "dns"})
+                       !.msg5 = @ \/ E.act = "noauth"
+                                  \/ (E.act = "code" /\ Cls(E.code) = 5 /\ E.stage \in {"banner", "ehlo", "helo", "starttls", "auth", "mail", "data", "exit", "http", "dns"})
                                   \/ (E.act = "code" /\ Cls(E.code) = 5 /\ E.stage = "eod" /\ ~T.cfg.lmtp),
                        !.acc = IF E.stage = "rcpt" /\ E.act = "code" /\ Cls(E.code) = 2 THEN @ \cup {E.i} ELSE @,
                        !.rc4 = IF E.stage = "rcpt" /\ E.act = "code" /\ Cls(E.code) = 4 THEN @ \cup {E.i} ELSE @,
@@ -40,7 +42,7 @@ EvPeer ==
                        !.stall = IF E.act = "stall" /\ R.stall = -1 THEN E.now ELSE @,
                        !.mailcls = IF E.stage = "mail" /\ E.act = "code" /\ Cls(E.code) \in {4, 5} /\ R.mailcls = 0 THEN Cls(E.code) ELSE @,
                        \* the connection itself failed (garbage, disconnect, silence) before the message content was due
-                       !.xearly = @ \/ (E.act # "code" /\ E.stage \notin {"eod", "rset", "quit"}),
+                       !.xearly = @ \/ (E.act \notin {"code", "noauth"} /\ E.stage \notin {"eod", "rset", "quit"}),
                        \* something other than the refusal of a recipient went wrong (before the result was set)
                        \* (what the downstream says to DATA after it has refused every recipient - typically 554 "no valid
                        \*  recipients" - is a consequence of the refusals, not another failure)
